@@ -133,7 +133,7 @@ func zzStructNames(ast *parser.Thrift, prefix string, out map[string]bool, seen 
 
 // H_C16_trim: the field type of L1, the result and argument types of m1 are free choices among
 // 10 spellings; throws / @preserve / force / extends / method filter are free.
-// (filter: 0 none, 1 "S.m2", 2 "m1"; ft and arg are harness arguments so that the tiers can bound them)
+// (filter: 0 none, 1 "S.m2", 2 "m1", 3 "Base.ping", 4 "S.ping", 5 "S.m2"+"Base.p.*"; ft and arg are harness arguments so that the tiers can bound them)
 func H_C16_trim(filter, ft, arg int) {
 	ret := zzrt.Choose("ret", len(zzSpells))
 	thr, pres, force, ext := zzrt.Bool("thr"), zzrt.Bool("preserve"), zzrt.Bool("force"), zzrt.Bool("extends")
@@ -144,13 +144,22 @@ func H_C16_trim(filter, ft, arg int) {
 		methods = []string{"S.m2"}
 	case 2:
 		methods = []string{"m1"}
+	case 3: // a method of the base service in the included file, by its own service name
+		methods = []string{"Base.ping"}
+	case 4: // the same method through the derived service
+		methods = []string{"S.ping"}
+	case 5: // a local method and a regexp over the base service
+		methods = []string{"S.m2", "Base.p.*"}
+	}
+	if filter >= 3 {
+		zzrt.Assume(ext)
 	}
 	_, err := doTrimAST(ast, methods, force, false, false, nil, nil)
 	zzrt.Assert(err == nil, "the trimmed IDL passes the semantic check")
 
 	// reference: what must be kept
 	var seed []string
-	m1, m2 := filter != 1, filter != 2
+	m1, m2 := filter == 0 || filter == 2, filter == 0 || filter == 1 || filter == 5
 	if m1 {
 		seed = append(seed, zzSpells[ret].deps...)
 		seed = append(seed, zzSpells[arg].deps...)
@@ -161,8 +170,8 @@ func H_C16_trim(filter, ft, arg int) {
 	if m2 {
 		seed = append(seed, "a.L1")
 	}
-	if ext && filter == 0 {
-		seed = append(seed, "base.BaseReq")
+	if ext && (filter == 0 || filter >= 3) {
+		seed = append(seed, "base.BaseReq") // the base method is kept: so is what it needs, in the base file
 	}
 	// all typedefs are kept, hence their targets (t.thrift is kept whenever it is still included)
 	seed = append(seed, "a.L4")
@@ -215,7 +224,7 @@ func H_C16_trim(filter, ft, arg int) {
 	sig1 := parser.ZZSig(ast, false)
 	_, err = doTrimAST(ast, methods, force, false, false, nil, nil)
 	zzrt.Assert(err == nil, "trimming the result again succeeds")
-	if ext && filter != 0 {
+	if ext && (filter == 1 || filter == 2) {
 		// the base service is cut off by the method filter but its include is only removed by a second run
 		zzrt.Known("KF-C16-stale-base-include", parser.ZZSig(ast, false) == sig1, "with a method filter that matches no method of the base service the 'extends' is removed but the include of the base file (now empty) is kept; a second trim removes it")
 	} else {
